@@ -24,8 +24,9 @@ VARIABLES proto,
           relq,      \* waiters released by resume() that have not run yet
           fwd,       \* messages written to their destination
           closed,    \* http1: the client connection has been closed by the proxy
+          sconn,     \* http: the server connection has been opened (HttpLayer.get_connection / OpenConnection)
           nuser, mon, obs
-vars == <<proto, ms, fl, busy, q, relq, fwd, closed, nuser, mon, obs>>
+vars == <<proto, ms, fl, busy, q, relq, fwd, closed, sconn, nuser, mon, obs>>
 
 Msgs == 1..MaxN
 Flows == 1..NFlows
@@ -38,30 +39,48 @@ HasHead == proto \in {"http1", "http2"}
 Init == /\ proto \in Protos
         /\ ms = [n \in Msgs |-> [st |-> "none", to |-> "s", dec |-> "pass", cur |-> n]]
         /\ fl = [f \in Flows |-> [ic |-> FALSE, kd |-> FALSE, live |-> TRUE, known |-> FALSE]]
-        /\ busy = 0 /\ q = <<>> /\ relq = <<>> /\ fwd = {} /\ closed = FALSE /\ nuser = 0
+        /\ busy = 0 /\ q = <<>> /\ relq = <<>> /\ fwd = {} /\ closed = FALSE /\ sconn = FALSE /\ nuser = 0
         /\ mon = MonStep(MonInit, [k |-> "cfg", proto |-> proto]) /\ obs = <<>>
 
 Live == mon.bad = <<>>
 Emit(evs) == obs' = evs /\ mon' = FoldEvents(MonStep, mon, evs)
 
-W0(first) == [ms |-> ms, fl |-> fl, busy |-> busy, q |-> q, fwd |-> fwd, closed |-> closed, out |-> <<first>>]
-Commit(w) == /\ ms' = w.ms /\ fl' = w.fl /\ busy' = w.busy /\ q' = w.q /\ fwd' = w.fwd /\ closed' = w.closed
-             /\ Emit(w.out)
+W0(first) == [ms |-> ms, fl |-> fl, busy |-> busy, q |-> q, fwd |-> fwd, closed |-> closed, sconn |-> sconn,
+              defer |-> <<>>, out |-> <<first>>]
+\* http: two things a released stream asks for complete in a later loop iteration, in the order they were asked for:
+\*  - requests released while the server connection is not open wait in waiting_for_establishment; when the
+\*    open_connection task completes, all of them are written, in order;
+\*  - check_killed(emit_error_hook=True) first runs the error hook (another hook task), then ends the flow.
+AbortRec(n) == [k |-> "abort", to |-> "c", f |-> IF proto = "http1" THEN 0 ELSE FlowOfN(n)]
+RECURSIVE FlushSeq(_, _, _)
+FlushSeq(w, s, wdone) ==
+  IF s = <<>> THEN w
+  ELSE IF Head(s).t = "a" THEN FlushSeq([w EXCEPT !.out = Append(@, AbortRec(Head(s).n))], Tail(s), wdone)
+  ELSE IF wdone THEN FlushSeq(w, Tail(s), TRUE)
+  ELSE LET ws == SelectSeq(s, LAMBDA x : x.t = "w")
+           ids == [i \in DOMAIN ws |-> w.ms[ws[i].n].cur]
+       IN FlushSeq([w EXCEPT !.sconn = TRUE, !.out = Append(@, [k |-> "write", to |-> "s", hd |-> ids, bd |-> ids])],
+                   Tail(s), TRUE)
+Flush(w) == [FlushSeq(w, w.defer, FALSE) EXCEPT !.defer = <<>>]
+Commit(w0) == LET w == Flush(w0) IN
+              /\ ms' = w.ms /\ fl' = w.fl /\ busy' = w.busy /\ q' = w.q /\ fwd' = w.fwd /\ closed' = w.closed
+              /\ sconn' = w.sconn /\ Emit(w.out)
 Killable(w, f) == w.fl[f].live /\ ~w.fl[f].kd
 
 \* the layer sends message n on (after its hook; SendData / SendHttp)
 Forward(w, n) ==
   LET id == w.ms[n].cur
       f == FlowOfN(n) IN
+  IF HasHead /\ IsReq(n) /\ ~w.sconn THEN [w EXCEPT !.fwd = @ \cup {n}, !.defer = Append(@, [t |-> "w", n |-> n])] ELSE
   [w EXCEPT !.fwd = @ \cup {n},
             !.fl[f].live = IF HasHead /\ ~IsReq(n) THEN FALSE ELSE @,     \* HttpStream.flow_done
             !.out = Append(@, [k |-> "write", to |-> w.ms[n].to, hd |-> IF HasHead THEN <<id>> ELSE <<>>,
                                                      bd |-> <<id>>])]
 \* check_killed / DNSLayer.handle_error: the flow is ended towards the client without content
 Abort(w, n) ==
-  LET f == FlowOfN(n) IN
-  [w EXCEPT !.closed = IF proto = "http1" THEN TRUE ELSE @,
-            !.out = Append(@, [k |-> "abort", to |-> "c", f |-> IF proto = "http1" THEN 0 ELSE f])]
+  IF HasHead /\ IsReq(n)
+    THEN [w EXCEPT !.closed = IF proto = "http1" THEN TRUE ELSE @, !.defer = Append(@, [t |-> "a", n |-> n])]
+    ELSE [w EXCEPT !.closed = IF proto = "http1" THEN TRUE ELSE @, !.out = Append(@, AbortRec(n))]
 ChecksKill(n) == proto \in {"http1", "http2"} \/ (proto = "dns" /\ IsReq(n))
 
 RECURSIVE Fire(_, _), Release(_, _), Drain(_)
@@ -112,21 +131,21 @@ Resume(f) ==
             /\ relq' = relq \o SelectSeq([i \in 1..MaxN |-> i], LAMBDA n : ms[n].st = "waiting" /\ FlowOfN(n) = f)
             /\ ms' = [n \in Msgs |-> IF ms[n].st = "waiting" /\ FlowOfN(n) = f THEN [ms[n] EXCEPT !.st = "rel"] ELSE ms[n]]
        ELSE UNCHANGED <<fl, relq, ms>>
-  /\ UNCHANGED <<proto, busy, q, fwd, closed>>
+  /\ UNCHANGED <<proto, busy, q, fwd, closed, sconn>>
 
 Kill(f) ==
   /\ Live /\ fl[f].known /\ nuser < MaxUser /\ nuser' = nuser + 1
   /\ LET kb == fl[f].live /\ ~fl[f].kd IN
      /\ Emit(<<[k |-> "kill", f |-> f, ok |-> kb]>>)
      /\ fl' = IF kb THEN [fl EXCEPT ![f].kd = TRUE, ![f].ic = FALSE, ![f].live = FALSE] ELSE fl
-  /\ UNCHANGED <<proto, ms, busy, q, relq, fwd, closed>>
+  /\ UNCHANGED <<proto, ms, busy, q, relq, fwd, closed, sconn>>
 
 EditMsg(f) ==
   /\ Live /\ nuser < MaxUser /\ nuser' = nuser + 1
   /\ \E n \in Msgs : /\ FlowOfN(n) = f /\ ms[n].st \in {"waiting", "rel"} /\ ms[n].cur = n
                      /\ ms' = [ms EXCEPT ![n].cur = n + EditOff]
                      /\ Emit(<<[k |-> "edit", n |-> n, f |-> f, id |-> n + EditOff]>>)
-  /\ UNCHANGED <<proto, fl, busy, q, relq, fwd, closed>>
+  /\ UNCHANGED <<proto, fl, busy, q, relq, fwd, closed, sconn>>
 
 RECURSIVE RunAll(_, _)
 RunAll(w, s) == IF s = <<>> THEN w ELSE RunAll(Release(w, Head(s)), Tail(s))
